@@ -98,4 +98,18 @@ CLAIMED = {
             "cardinalities, sign+verify after success and an untouched bystander method are compared.",
             "Fault model: a failing call has no effect. In-memory stores, Ed25519 only. 2 (quick) / 3 (thorough) relationships.",
             "DESIGN.md §3 C09"),
+    "C15": ("TLA+ specs KeyStore (sequential key-storage contract) and KeyIdStore (threads with explicit linearisation points) "
+            "model-checked by TLC; every sequential transition replayed on JwkMemStore/KeyIdMemstore; random histories "
+            "trace-validated; real thread races checked for linearizability by a TLC trace spec with silent Lin steps",
+            "model_checking",
+            "Sequential: TLC explores all histories up to 3 (quick) / 4 (thorough) issued key ids x all argument classes and "
+            "checks freshness, inert deleted/never-issued ids and first-mapping-wins as invariants/action properties; each "
+            "transition is replayed on fresh stores with real Ed25519 keys (public-only output, kid = RFC 7638 thumbprint, alg, "
+            "signature verifies under its own key and under no other stored key). Concurrent: TLC explores every interleaving of "
+            "Call/Lin/Ret for 3 threads x 5 plans (95 710 states) and shows the non-atomic design fails; races of 2..16 real "
+            "threads on one KeyIdMemstore are recorded (call/return stamped by one atomic counter) and KeyIdStoreTrace decides "
+            "linearizability of every round by placing the Lin steps itself.",
+            "Real races sample schedules (design-level interleavings are exhaustive). Stronghold store not exercised. Crypto "
+            "primitives trusted.",
+            "DESIGN.md §3 C15"),
 }
